@@ -375,6 +375,8 @@ func (c *txctx) apply1(kind string, arg func(int) string) (bool, *disc) {
 				d.Class += "/after-cursor-delete"
 			case (kind == "cn" && (prev == "cp" || prev == "cl")) || (kind == "cp" && (prev == "cn" || prev == "cf" || prev == "cs")):
 				d.Class += "/direction-change"
+			case rc.EverInvalidated():
+				d.Class += "/cursor-repositioned-after-modification"
 			}
 		}
 		return true, d
